@@ -32,7 +32,7 @@ inductive Out (Val Exc : Type) where
                   `exc e` stands for the exception AS SENT: what `Daemon._serializeException` makes of the raised
                   exception (itself, or the describing PyroError if this instance cannot be serialised).  The batch
                   loop (server.py:453-455) and the exception response of a plain call (server.py:638-641) apply that
-                  same function of (serializer, exception) — an extracted fact, `Gen.C11.sameSerializeOrFallback` —
+                  same function of (serializer, exception) — probed on every run, `C11_gen_server_probes` / `C11_gen_single_probes` —
                   so it is part of this arbitrary `apply`.  A value that happens to be an exception OBJECT returned
                   by a method is an `ok v` like any other value. -/
 structure Obj (St Name Arg Val Exc : Type) where
